@@ -19,6 +19,33 @@ VERIF = os.path.dirname(os.path.dirname(os.path.abspath(__file__)))
 
 # (name, relative file, old text, new text, [properties expected to catch it])
 M = [
+    # --- reverts (or partial reverts) of the late repairs: each must be caught by the property that motivated it
+    ("objlist_size_not_restored", "src/vsc/model/randomizer.py",
+     "                    fm._set_size(fm.presolve_size)", "                    if fm.is_scalar: fm._set_size(fm.presolve_size)", ["C16"]),
+    ("external_fields_not_released", "src/vsc/model/randomizer.py",
+     "            for rs in ri.randsets():\n                for f in rs.all_fields():\n                    f.dispose()\n\n        visited = []",
+     "            pass\n\n        visited = []", ["C16"]),
+    ("singleton_range_unsigned_literal", "src/vsc/model/solvegroup_swizzler_partsel.py",
+     "                        ExprLiteralModel(t_range[0], f.is_signed, f.width)))", "                        ExprLiteralModel(t_range[0], False, 32)))", ["C14"]),
+    ("swizzle_upper_bits_free", "src/vsc/model/solvegroup_swizzler_partsel.py",
+     "        if d_width > 0 and d_width < f.width:", "        if False:", ["C14", "C20"]),
+    ("range_picked_uniformly", "src/vsc/model/solvegroup_swizzler_partsel.py",
+     "            sel = self.randstate.randint(0, total-1)\n            for t_range in range_l:\n                sel -= int(t_range[1]) - int(t_range[0]) + 1\n                if sel < 0:\n                    break",
+     "            t_range = range_l[self.randstate.randint(0, len(range_l)-1)]", ["C20"]),
+    ("in_empty_is_true", "src/vsc/model/expr_in_model.py",
+     "            expr = ExprLiteralModel(1 if randsz_skipped else 0, False, 1)", "            expr = ExprLiteralModel(1, False, 1)", ["C01", "C02"]),
+    ("bounds_negative_as_unsigned", "src/vsc/model/variable_bound_ctx_expr.py",
+     "        if v < 0 and not (signed and e_signed):", "        if False:", ["C14"]),
+    ("bounds_no_wrap_check", "src/vsc/model/variable_bound_ctx_expr.py",
+     "        elif v >= (1 << self.width):\n            return None", "        elif False:\n            return None", ["C14"]),
+    ("bounds_mixed_sign_vars", "src/vsc/visitors/variable_bound_visitor.py",
+     "                if e.lhs.is_signed() == e.rhs.is_signed():", "                if True:", ["C14"]),
+    ("bounds_signed_var_unsigned_ctx", "src/vsc/visitors/variable_bound_visitor.py",
+     "                if rhs_is_nonrand and (ctx_signed or not e.lhs.is_signed()):", "                if rhs_is_nonrand:", ["C14"]),
+    ("dynref_class_level", "src/vsc/rand_obj.py",
+     "                        if model is not None and a in model.constraint_dynamic_m.keys():", "                        if False:", ["C06"]),
+    ("empty_sum_dropped", "src/vsc/model/rand_info_builder.py",
+     "        if len(e.arr.field_l) == 0:\n            # The sum of no elements", "        if False:\n            # The sum of no elements", ["C02", "C04"]),
     ("ult_to_slt", "src/vsc/model/expr_bin_model.py",
      "ret = btor.Ult(lhs_n, rhs_n)", "ret = btor.Slt(lhs_n, rhs_n)", ["C01"]),
     ("uext_to_sext", "src/vsc/model/expr_bin_model.py",
@@ -28,7 +55,7 @@ M = [
     ("in_range_le_to_lt", "src/vsc/model/expr_in_model.py",
      "ExprBinModel(self.lhs, BinExprType.Le, r.rhs))", "ExprBinModel(self.lhs, BinExprType.Lt, r.rhs))", ["C01", "C02"]),
     ("merge_drops_constraints", "src/vsc/model/rand_info_builder.py",
-     "                for c in self._active_randset.constraints():\n                    ex_randset.add_constraint(c)\n                for c in self._active_randset.soft_constraints():",
+     "                for c in self._active_randset.constraints():\n                    ex_randset.add_constraint(c)\n                    \n                for c in self._active_randset.soft_constraints():",
      "                for c in self._active_randset.soft_constraints():", ["C01"]),
     ("enum_assert_skipped", "src/vsc/model/enum_field_model.py",
      "            btor.Assert(c)", "            pass", ["C01"]),
@@ -57,7 +84,7 @@ M = [
     ("list_len_is_model_len", "src/vsc/types.py",
      "            return int(model.size.get_val())", "            return len(model.field_l)", ["C04"]),
     ("list_append_no_mask", "src/vsc/types.py",
-     "            mask_v = int(v) & self.mask", "            mask_v = int(v)", ["C04", "C18"]),
+     "            mask_v = int(v) & self.mask", "            mask_v = int(v)", ["C18"]),
     ("list_clear_keeps_size", "src/vsc/model/field_array_model.py",
      "    def clear(self):\n        self.field_l.clear()\n        self._set_size(0)", "    def clear(self):\n        self.field_l.clear()", ["C04"]),
     ("unique_list_skips_first", "src/vsc/model/constraint_unique_model.py",
@@ -72,15 +99,16 @@ M = [
      "            propagator = VariableBoundBoundsMinPropagator(\n                lhs_bounds, rhs_bounds, 1)",
      "            propagator = VariableBoundBoundsMinPropagator(\n                lhs_bounds, rhs_bounds, 2)", ["C14"]),
     ("bounds_expr_le_as_lt", "src/vsc/visitors/variable_bound_visitor.py",
-     "        elif op == BinExprType.Le:\n            # The max bound is \n            propagator = VariableBoundExprMaxPropagator(\n                lhs_bounds,\n                rhs_e)",
-     "        elif op == BinExprType.Le:\n            # The max bound is \n            propagator = VariableBoundExprMaxPropagator(\n                lhs_bounds,\n                ExprBinModel(rhs_e, BinExprType.Sub, ExprLiteralModel(1, False, 4)))", ["C14"]),
+     "        elif op == BinExprType.Le:\n            # The max bound is \n            propagator = VariableBoundExprMaxPropagator(\n                lhs_bounds,\n                VariableBoundCtxExpr(rhs_e, ctx_width, ctx_signed))",
+     "        elif op == BinExprType.Le:\n            # The max bound is \n            propagator = VariableBoundExprMaxPropagator(\n                lhs_bounds,\n                VariableBoundCtxExpr(rhs_e, ctx_width, ctx_signed, -1))", ["C14"]),
     ("bounds_nre_lt_no_plus1_wrongway", "src/vsc/visitors/variable_bound_visitor.py",
-     "            # <expr> < <var>  <-> <var> >= <expr>+1\n            # Sets the minimum bound for the variable\n            propagator = VariableBoundExprMinPropagator(\n                rhs_bounds,\n                ExprBinModel(\n                    lhs_e,\n                    BinExprType.Add,\n                    ExprLiteralModel(1, False, 4)))",
-     "            propagator = VariableBoundExprMinPropagator(\n                rhs_bounds,\n                ExprBinModel(\n                    lhs_e,\n                    BinExprType.Add,\n                    ExprLiteralModel(2, False, 4)))", ["C14"]),
-    ("swizzle_dwidth_short", "src/vsc/model/solvegroup_swizzler_partsel.py",
-     "            bit_pattern = self.randstate.randint(t_range[0], t_range[1])", "            d_width = max(1, d_width-1)\n            bit_pattern = self.randstate.randint(t_range[0], t_range[1])", ["C14"]),
-    ("swizzle_range_idx_skips_last", "src/vsc/model/solvegroup_swizzler_partsel.py",
-     "            range_idx = self.randstate.randint(0, len(range_l)-1)", "            range_idx = self.randstate.randint(0, max(0, len(range_l)-2))", ["C14"]),
+     "            propagator = VariableBoundExprMinPropagator(\n                rhs_bounds,\n                VariableBoundCtxExpr(lhs_e, ctx_width, ctx_signed, 1))",
+     "            propagator = VariableBoundExprMinPropagator(\n                rhs_bounds,\n                VariableBoundCtxExpr(lhs_e, ctx_width, ctx_signed, 2))", ["C14"]),
+    ("swizzle_upper_bits_wrong", "src/vsc/model/solvegroup_swizzler_partsel.py",
+     "                ExprLiteralModel((bit_pattern >> d_width) & ((1 << u_width)-1), False, u_width)",
+     "                ExprLiteralModel(0, False, u_width)", ["C14"]),
+    ("swizzle_range_skips_last", "src/vsc/model/solvegroup_swizzler_partsel.py",
+     "            sel = self.randstate.randint(0, total-1)", "            sel = self.randstate.randint(0, total-1-(int(range_l[-1][1])-int(range_l[-1][0])+1))", ["C14"]),
     ("bounds_visit_if_bodies", "src/vsc/visitors/variable_bound_visitor.py",
      "    def visit_constraint_if_else(self, c:ConstraintIfElseModel):", "    def visit_constraint_if_else_DISABLED(self, c:ConstraintIfElseModel):", ["C14"]),
     ("in_propagator_drops_first", "src/vsc/model/variable_bound_in_propagator.py",
